@@ -7,7 +7,9 @@ use quote::quote;
 use std::path::Path;
 
 fn main() {
-    let src_path = "/repo/src/dialect/mod.rs";
+    println!("cargo:rerun-if-env-changed=VERIF_REPO");
+    let repo = std::env::var("VERIF_REPO").unwrap_or_else(|_| "/repo".to_string());
+    let src_path = &format!("{repo}/src/dialect/mod.rs");
     println!("cargo:rerun-if-changed={src_path}");
     println!("cargo:rerun-if-changed=build.rs");
     let src = std::fs::read_to_string(src_path).expect("read dialect/mod.rs");
@@ -85,7 +87,8 @@ fn main() {
 
 /// C19: one test closure per builder setter, generated from the current source.
 fn gen_builder_setters(out: &str) {
-    let p = "/repo/src/ast/helpers/stmt_create_table.rs";
+    let repo = std::env::var("VERIF_REPO").unwrap_or_else(|_| "/repo".to_string());
+    let p = &format!("{repo}/src/ast/helpers/stmt_create_table.rs");
     println!("cargo:rerun-if-changed={p}");
     let file = syn::parse_file(&std::fs::read_to_string(p).expect("read builder")).expect("parse builder");
     let mut field_ty = std::collections::BTreeMap::new();
